@@ -10,6 +10,8 @@
 #include <pika/semaphore.hpp>
 #include <pika/thread.hpp>
 #include <pika/execution_base/this_thread.hpp>
+#include <pika/threading_base/scheduler_base.hpp>
+#include <pika/threading_base/scheduler_mode.hpp>
 #include <pika/threading_base/thread_pool_base.hpp>
 
 #include "vlog.hpp"
@@ -112,6 +114,18 @@ int main(int argc, char** argv)
     {
         g_runs = 0;
         int expected_runs = 0;
+        // now and then the application switches stealing off and on again for every pool at run time (the usual
+        // bracket around a phase that must not migrate); a static policy stays non-stealing through that
+        if (R.chance(1, 6))
+        {
+            using pika::threads::scheduler_mode;
+            for (char const* pn : POOLS)
+            {
+                auto* sc = pika::resource::get_thread_pool(pn).get_scheduler();
+                sc->remove_scheduler_mode(scheduler_mode::enable_stealing);
+                sc->add_scheduler_mode(scheduler_mode::enable_stealing);
+            }
+        }
         // 1. a pipeline crossing pools: schedule(p0) | then | continues_on(p1) | then | ... | bulk
         auto pipeline = [&](bool from_task) {
             int nst = 2 + (int) R.below(4);
